@@ -132,6 +132,16 @@ def hammer_scenario(r, readers, ops, appends, free_ops, mode="both"):
     return {"init": {"chain": chain, "n0": 1, "top": 0, "qcap": 1, "up": True}, "steps": steps, "src": "hammer"}
 
 
+def append_hammer_scenario(r, rounds, maxk):
+    """Concurrent appenders (2..maxk at once) with identical and overlapping batches on one GuardianSets instance,
+    round after round while governance keeps creating sets; list projection and lookups after every round."""
+    k = 2 * rounds + 2
+    chain = universe(r, k)
+    chain = [ks[:r.choice([1, 2, 3])] for ks in chain]      # many sets, few keys each
+    steps = [{"ev": "AppendHammer", "a": {"rounds": rounds, "maxk": maxk, "seed": r.randrange(1, 10 ** 6)}}]
+    return {"init": {"chain": chain, "n0": 1, "top": 0, "qcap": 1, "up": True}, "steps": steps, "src": "append-hammer"}
+
+
 def mk_vaa(vid, set_idx, keys, idxs, cls, **kw):
     sigs = [{"idx": i, "signer": keys[i]} for i in idxs]
     v = {"id": vid, "setIdx": set_idx, "sigs": sigs, "cls": cls}
@@ -291,18 +301,43 @@ def replay(work, scenarios, kind, tag):
     return lines, parse_races(out), wall
 
 
+def _width(tl):
+    """Largest number of calls open at the same time in a trace."""
+    open_, w = set(), 0
+    for ln in tl:
+        if ln["ev"].endswith("Call"):
+            open_.add(ln["a"]["p"])
+            w = max(w, len(open_))
+        elif ln["ev"].endswith("Ret") and ln["ev"] != "FreeRet":
+            open_.discard(ln["a"].get("p"))
+    return w
+
+
 def validate(work, lines):
-    """Trace_Explorer over the recorded lines: first with the canonical schedule of silent steps, then the traces
-    that were not explained (other than by a panic, which nothing explains) again with all interleavings."""
+    """Trace_Explorer over the recorded lines at level 1 (a call takes effect right before its return), then the traces
+    that stay unexplained (other than by a panic, which nothing explains) at level 2 (atomic anywhere between call and
+    return), then -- histories at most 3 calls wide -- with all interleavings (see Trace_Explorer.tla)."""
     res, r = _validate(work, lines, "Trace_Explorer.cfg")
-    redo = set(t for t, bad in res.items() if bad is not None and bad.get("a", {}).get("res", {}).get("tag") != "panic"
-               and "panic" not in bad.get("a", {}))
-    if redo:
-        res2, r2 = _validate(work, [ln for ln in lines if ln["t"] in redo], "Trace_Explorer_full.cfg")
+    r["passes"] = {"level1": len(res)}
+
+    def unexplained():
+        return set(t for t, bad in res.items() if bad is not None and bad.get("a", {}).get("res", {}).get("tag") != "panic"
+                   and "panic" not in bad.get("a", {}))
+    for cfg, name in (("Trace_Explorer_atomic.cfg", "level2"), ("Trace_Explorer_full.cfg", "level3")):
+        redo = unexplained()
+        if name == "level3":
+            by_t = {}
+            for ln in lines:
+                if ln["t"] in redo:
+                    by_t.setdefault(ln["t"], []).append(ln)
+            redo = set(t for t in redo if _width(by_t[t]) <= 3)
+        if not redo:
+            continue
+        res2, r2 = _validate(work, [ln for ln in lines if ln["t"] in redo], cfg)
         res.update(res2)
         for k in ("distinct", "generated", "wall_s"):
             r[k] += r2[k]
-        r["second_pass_traces"] = len(redo)
+        r["passes"][name] = len(redo)
     return res, r
 
 
@@ -348,6 +383,13 @@ def classify_reject(trace_lines, bad, scenario):
             up = ln["a"]["up"]
         elif ln["ev"] == "ChainGrow":
             top = ln["a"]["top"]
+    st = bad.get("s") or {}
+    if "idxs" in st and a.get("res", {}).get("tag") != "panic":
+        # projected list state (read under the structure's own lock) that the specification does not have
+        if st["idxs"] != list(range(len(st["idxs"]))):
+            return "reject/%s/list-position-differs-from-set-index" % ev
+        if st.get("n") != st.get("cur", -2) + 1:
+            return "reject/%s/list-length-differs-from-current-index" % ev
     if ev in ("LookupRet", "CurrentRet", "FreeRet"):
         res = a.get("res", {})
         if res.get("tag") == "panic":
